@@ -324,6 +324,9 @@ class Cluster:
         # Locking is not required for this function.
         assert self._config.is_complete
         self._config.is_complete = False
+        # Resubmitting is an explicit request to run jobs again; a canceled flag left over from an
+        # earlier cancel-jobs would make every submitter round refuse to submit the reset jobs.
+        self._config.is_canceled = False
         # Count from the job table: a job that is not resubmitted may never have been submitted
         # (e.g., --no-missing after a canceled or partially failed submission).
         self._config.submitted_jobs = 0
